@@ -89,7 +89,8 @@ EvalV(ve, env, w) ==
 \*   w   := [8]int{}  target of the `=` form whose second operand is indexed by the first:  for kk, w[kk+1] = range s
 Heap0 == [s |-> [cells |-> <<10, 20, 30, 0>>, len |-> 3], arr |-> <<10, 20, 30>>,
           str |-> <<97, 195, 169, 255, 122>>, n |-> 3, ch |-> <<10, 20>>, w |-> <<0, 0, 0, 0, 0, 0, 0, 0>>,
-          n0 |-> 0, m1 |-> <<<<7, 70>>>>]     \* n0 := 0 (empty integer range), m1 := map[int]int{7: 70} (one entry: deterministic)
+          n0 |-> 0, m1 |-> <<<<7, 70>>>>,
+          caps |-> <<>>]                     \* caps: the cells captured by the closures appended to `caps` (statement capa)     \* n0 := 0 (empty integer range), m1 := map[int]int{7: 70} (one entry: deterministic)
 Spawn(w, g, a, b) ==
   LET c1 == Alloc(w, a) c2 == Alloc(c1.w, b)
       c3 == Alloc(c2.w, 0 - 1) c4 == Alloc(c3.w, 0 - 1) c5 == Alloc(c4.w, 0 - 7)
@@ -114,6 +115,18 @@ ToLabel(k, lab) == IF Head(k).t \in {"loop", "range"} /\ LabOf(Head(k)) = lab TH
 ToLoop(k) == IF Head(k).t \in {"loop", "range"} THEN k ELSE ToLoop(Tail(k))
 PastBreakTarget(k) == IF Head(k).t \in {"loop", "range", "sw"} THEN Tail(k) ELSE PastBreakTarget(Tail(k))
 PostFrames(lp) == IF lp.t = "range" \/ IsNone(lp.post) THEN <<>> ELSE <<[t |-> "seq", ss |-> <<lp.post>>, env |-> lp.env]>>
+\* Go >= 1.22: "each iteration has its own separate declared variable; the variable used by each subsequent iteration
+\* is declared implicitly before executing the post statement and initialised to the value of the previous iteration's
+\* variable at that moment".  NextIter(lp, w) = [lp, w]: fresh cells for the loop's declared variables.
+\* KF35 (as built): the initialiser is hoisted in front of the loop, all iterations share one variable.
+RECURSIVE FreshVars(_, _, _)
+FreshVars(names, env, w) ==
+  IF names = <<>> THEN [env |-> env, w |-> w]
+  ELSE LET al == [id |-> Len(w.store) + 1, w |-> [w EXCEPT !.store = Append(@, w.store[env[Head(names)]])]] IN
+       FreshVars(Tail(names), [env EXCEPT ![Head(names)] = al.id], al.w)
+NextIter(lp, w) ==
+  IF lp.t # "loop" \/ "decl" \notin DOMAIN lp \/ lp.decl = <<>> \/ "KF35" \in w.flags THEN [lp |-> lp, w |-> w]
+  ELSE LET fv == FreshVars(lp.decl, lp.env, w) IN [lp |-> [lp EXCEPT !.env = fv.env], w |-> fv.w]
 IsYielding(s) == ~IsNone(s) /\ s.k \in {"yield", "yfrom", "yfromit", "ygen"}
 
 SetK(w, i, k) == [w EXCEPT !.cos[i].k = k]
@@ -249,6 +262,8 @@ UnsupYields(u) == u \in {"elifinit", "parenyield", "lbreak", "lcont", "goto", "s
 \* ---------------------------------------------------------------- the interpreter
 \* Run(i, w): run coroutine i to its next yield / end / panic:  [st, w]
 \* Adv(i, w): it.MoveNext() on iterator i:                      [ok, w]
+RECURSIVE LogCaps(_, _, _, _)
+LogCaps(w, id, cs, j) == IF cs = <<>> \/ Panicked(w) THEN w ELSE LogCaps(Log(w, <<"e", id, j, w.store[Head(cs)]>>), id, Tail(cs), j + 1)
 RECURSIVE Run(_, _), Adv(_, _)
 Adv(i, w) ==
   IF w.cos[i].done THEN [ok |-> FALSE, w |-> w]
@@ -332,6 +347,10 @@ Run(i, w) ==
                           IF Panicked(w1) THEN [st |-> "panic", w |-> w1]
                           ELSE Run(i, SetK(w1, i, <<[t |-> "range", s |-> s, st |-> RangeStart(s, c.heap, w.flags), env |-> env]>> \o k1))
       [] s.k = "inc"   -> Run(i, SetK(Set(w, env, s.n, Get(w, env, s.n) + 1), i, k1))
+      \* caps = append(caps, func() int { return a }): the closure captures the VARIABLE a of the current scope (a cell)
+      [] s.k = "capa"  -> Run(i, [SetK(w, i, k1) EXCEPT !.cos[i].heap.caps = Append(@, env.a)])
+      \* for j, f := range caps { r.E(id, j, f()) }: what every captured variable holds now
+      [] s.k = "obscaps" -> Run(i, SetK(LogCaps(w, s.id, c.heap.caps, 0), i, k1))
       [] s.k \in {"def", "def2"} -> LET d == ApplyInit(s, env, w) IN
                           Run(i, SetK(d.w, i, <<[top EXCEPT !.ss = Tail(@), !.env = d.env]>> \o rest))
       [] s.k = "effx"  -> LET e == EvalV(s.v, env, w) IN           \* r.E(id, <expr>, 0): observes the value of an expression
@@ -404,12 +423,16 @@ Run(i, w) ==
                           Run(i, SetK(w, i, <<[t |-> "seq", ss |-> CaseStmts(s.cases, s.j, s.env), env |-> s.env]>> \o rest))
       [] s.k = "block" -> Run(i, SetK(w, i, <<[t |-> "seq", ss |-> s.body, env |-> env]>> \o k1))
       [] s.k = "for"   -> LET ini == ApplyInit(s.init, env, w)
-                              lp  == [t |-> "loop", c |-> s.c, post |-> s.post, body |-> s.body, env |-> ini.env, lab |-> LabOf(s)] IN
+                              lp  == [t |-> "loop", c |-> s.c, post |-> s.post, body |-> s.body, env |-> ini.env, lab |-> LabOf(s),
+                                      \* the variables declared by the initialiser: each iteration has its own copy (Go >= 1.22)
+                                      decl |-> IF IsNone(s.init) THEN <<>> ELSE IF s.init.k = "def" THEN <<s.init.n>>
+                                               ELSE IF s.init.k = "def2" THEN <<"a", "b">> ELSE <<>>] IN
                           IF IsNone(s.init) \/ s.init.k \in {"def", "def2"} THEN Run(i, SetK(ini.w, i, <<lp>> \o k1))
                           ELSE Run(i, SetK(w, i, <<[t |-> "seq", ss |-> <<s.init>>, env |-> env], lp>> \o k1))
       [] s.k = "break" -> Run(i, SetK(w, i, PastBreakTarget(k1)))
       [] s.k = "lbreak" -> Run(i, SetK(w, i, Tail(ToLabel(k1, s.lab))))                    \* break L
-      [] s.k = "lcont"  -> LET kl == ToLabel(k1, s.lab) IN Run(i, SetK(w, i, PostFrames(Head(kl)) \o kl))   \* continue L
+      [] s.k = "lcont"  -> LET kl == ToLabel(k1, s.lab) ni == NextIter(Head(kl), w) IN
+                           Run(i, SetK(ni.w, i, PostFrames(ni.lp) \o <<ni.lp>> \o Tail(kl)))   \* continue L
       [] s.k = "defer"  -> \* defer r.E(id, a, b): the arguments are evaluated now, the call runs when the function ends
                            Run(i, [SetK(w, i, k1) EXCEPT !.cos[i].defers = <<<<"e", s.id, Get(w, env, "a"), Get(w, env, "b")>>>> \o @])
       [] s.k = "deferv" -> Run(i, [SetK(w, i, k1) EXCEPT !.cos[i].defers = <<<<"e", s.id, s.x, 0>>>> \o @])     \* defer r.E(id, x, 0)
@@ -417,8 +440,9 @@ Run(i, w) ==
       [] s.k \in {"continue", "$endbody"} ->
                           LET kl == ToLoop(k1)
                               \* KF04 (as built): a `continue` under a yielding post statement skips the post
-                              skip == s.k = "continue" /\ "KF04" \in w.flags /\ Head(kl).t = "loop" /\ IsYielding(Head(kl).post) IN
-                          Run(i, SetK(w, i, (IF skip THEN <<>> ELSE PostFrames(Head(kl))) \o kl))
+                              skip == s.k = "continue" /\ "KF04" \in w.flags /\ Head(kl).t = "loop" /\ IsYielding(Head(kl).post)
+                              ni == NextIter(Head(kl), w) IN
+                          Run(i, SetK(ni.w, i, (IF skip THEN <<>> ELSE PostFrames(ni.lp)) \o <<ni.lp>> \o Tail(kl)))
       [] s.k = "return" -> [st |-> "done", w |-> SetK(w, i, <<>>)]
       [] s.k = "retx"   -> \* return <expr>: the operand is evaluated (and discarded), then the generator ends
                            LET w1 == Log(w, <<"v", s.id, 0>>) IN
